@@ -1045,9 +1045,11 @@ func undoAddEvent(c *types.ChangeLog, processor types.ChangeLogProcessor) error 
 func NewSuicideLog(address common.Address, processor types.ChangeLogProcessor) *types.ChangeLog {
 	account := processor.GetAccount(address)
 	oldAccount := &types.AccountData{
-		Balance:     new(big.Int).Set(account.GetBalance()),
-		CodeHash:    account.GetCodeHash(),
-		StorageRoot: account.GetStorageRoot(),
+		Balance:       new(big.Int).Set(account.GetBalance()),
+		CodeHash:      account.GetCodeHash(),
+		StorageRoot:   account.GetStorageRoot(),
+		AssetCodeRoot: account.GetAssetCodeRoot(),
+		AssetIdRoot:   account.GetAssetIdRoot(),
 	}
 	return &types.ChangeLog{
 		LogType: SuicideLog,
@@ -1073,6 +1075,9 @@ func undoSuicide(c *types.ChangeLog, processor types.ChangeLogProcessor) error {
 	accessor.SetBalance(oldValue.Balance)
 	accessor.SetCodeHash(oldValue.CodeHash)
 	accessor.SetStorageRoot(oldValue.StorageRoot)
+	accessor.SetAssetCodeRoot(oldValue.AssetCodeRoot)
+	accessor.SetAssetIdRoot(oldValue.AssetIdRoot)
+	// at last. It brings back the code and caches which belong to the hashes set above
 	accessor.SetSuicide(false)
 	return nil
 }
